@@ -775,3 +775,13 @@ package gonum
 //@        w[p] for p in 0..n if lwork != -1
 //@ floats: ieee
 //@ option nan-axioms
+
+// Dlasrt: d[0:n] comes back in the requested order (package sort is modelled: its result is ordered
+// by the package's comparison; that it is a permutation of the input is not tracked).
+//@ func Implementation.Dlasrt props: C03 C07(safety)
+//@ valid (s == lapack.SortIncreasing || s == lapack.SortDecreasing) && n >= 0 && len(d) >= n
+//@ panics iff !valid, before-writes
+//@ writes d[k] for k in 0..n
+//@ floats: ieee
+//@ ensures s == lapack.SortIncreasing ==> forall(k, 1, n, !(d[k] < d[k-1]))
+//@ ensures s == lapack.SortDecreasing ==> forall(k, 1, n, !(d[k-1] < d[k]))
